@@ -6,14 +6,15 @@ def _cases():
         ['bitcoinlib.values.value_to_satoshi[unit-h-above-2^50-native]'] + _currency()
 def _currency():
     import contracts.values as cv
-    return list(cv.CURRENCY_CASES)
+    return list(cv.CURRENCY_CASES) + list(cv.BYTES_CASES) + ['bitcoinlib.values.Value.to_hex[native]']
 CONTRACTS = _cases()
 LEVEL = 'proof'
 LEVEL_TEXT = ('value_to_satoshi (Value.__init__ string parsing, float arithmetic, Value.value_sat rounding) is verified for EVERY amount 0..21e14 '
               'smallest units written exactly in each denominator of the table, with IEEE-754 double arithmetic modelled by per-binade half-ulp '
               'bounds (a sound over-approximation of round-to-nearest). Whole coins, sat, c and µsat spellings are proved exact on the whole range '
               '(also for every other network currency code); for m, µ, n, fin, msat, d, k, M the verifier proves "exact up to 2^50 units and never '
-              'more than one unit off above" and genuine off-by-one amounts are listed as open findings; da is unusable (open finding).')
+              'more than one unit off above" and genuine off-by-one amounts are listed as open findings; da is unusable (open finding). '
+              'Value.to_bytes / Value.to_hex are the bytes of the integer amount in the byte order asked for (lengths 8 / 7 bytes and 16 / 14 digits, both orders; value_sat abstract).')
 LEVEL_NOTE = ('Assumed: float(decimal text) is correctly rounded (CPython), IEEE-754 binary64 round-to-nearest, round() = nearest-even. The amount '
               'text is abstract: an exact decimal numeral with a symbolic numerator plus a concrete unit string (string splitting of the numeral '
               'itself is not modelled). Not covered: Value.str / from_satoshi formatting round trip, Transaction.add_output integer check, '
